@@ -112,7 +112,7 @@ func genSeqCase(r *simrt.Rand, p seqProfile) SeqCase {
 			o.K = "set"
 		case 1:
 			o.K = "setr"
-			o.Shape = []string{"plain", "byte", "short", "zero", "dataeof"}[r.Intn(5)]
+			o.Shape = []string{"plain", "byte", "short", "zero", "dataeof", "preread", "prereadstr"}[r.Intn(7)]
 			if o.Shape == "byte" && o.Size > 3000 {
 				o.Shape = "short"
 			}
